@@ -1,15 +1,16 @@
 import Rtsp.Model.Session
+import Rtsp.Model.SessionTimer
 import Rtsp.Drv.Util
 /-
 Line protocol for the server session model (domain `sess`).
 
-  sess init <handlers mask> <udp 0|1> <mcast 0|1> <nMedias>      → ok
+  sess init <handlers mask> <udp 0|1> <mcast 0|1> <nMedias> <IdleTimeout ms>   → ok
   sess open <conn> <ip>                                          → ok
   sess close <conn>                                              → <summary>
   sess expire <sid>                                              → <summary>
   sess rfc <state> <method>                                      → <allowedStrict> <allowed> <next state>   (Spec/Rfc2326.lean)
   sess req <conn> <method> <cseq|-> <star 0|1> <sid n|w|k> <path> <track k|x> <transports|-> <ct.sdp.n> <hstatus> <herr 0|1>
-        → st <status> cs <cseq|-> sh <sid|-> ch <chan|-> cl <0|1> <summary>     (or `noconn <summary>`)
+        → st <status> cs <cseq|-> sh <sid:timeout|-> ch <chan|-> cl <0|1> <summary>     (or `noconn <summary>`)
 
   handlers mask bits: 1 describe, 2 announce, 4 setup, 8 play, 16 record, 32 pause, 64 getParameter, 128 setParameter
   transports: comma list of <u|m|t>.<secure>.<mode 0|1|2>.<ports 0|1>.<il 0|1|2>.<ilA>
@@ -86,15 +87,17 @@ def parseReq (a : List String) : Option (Nat × Request) :=
 def mk : IO Handler := do
   let cfgR ← IO.mkRef ({} : Config)
   let st ← IO.mkRef ({} : Server)
+  let idleR ← IO.mkRef (60000 * 1000000 : Nat)
   return fun args => do
     match args with
-    | ["init", hm, udp, mc, nm] =>
-      match hm.toNat?, nm.toNat? with
-      | some hm, some nm =>
+    | ["init", hm, udp, mc, nm, idle] =>
+      match hm.toNat?, nm.toNat?, idle.toNat? with
+      | some hm, some nm, some idle =>
         cfgR.set { h := handlersOfMask hm, udp := udp == "1", mcast := mc == "1", nMedias := nm }
+        idleR.set (idle * 1000000)
         st.set {}
         return "ok"
-      | _, _ => return "bad-op"
+      | _, _, _ => return "bad-op"
     | ["open", c, ip] =>
       match c.toNat?, ip.toNat? with
       | some c, some ip =>
@@ -127,7 +130,10 @@ def mk : IO Handler := do
         match o with
         | none => return s!"noconn {summary s}"
         | some res =>
-          return s!"st {res.status} cs {optNat res.cseq} sh {optNat res.sessHdr} ch {optNat res.chan} cl {b2s (res.err == .fail)} {summary s}"
+          let sh := match res.sessHdr with
+            | none => "-"
+            | some id => s!"{id}:{Rtsp.Sess.Timer.advertised (← idleR.get)}"
+          return s!"st {res.status} cs {optNat res.cseq} sh {sh} ch {optNat res.chan} cl {b2s (res.err == .fail)} {summary s}"
       | none => return "bad-op"
     | _ => return "bad-op"
 
